@@ -106,14 +106,12 @@ def generate(features=("std",), tag="std", quarantined=()):
     code = parts["20_code.rs"]
     post = "".join(parts[f] for f in sorted(parts) if f > "20_code.rs")
     try:
-        gen_code, srep = splice.splice("", code, ext_text, set())
+        gen_code, srep = splice.splice("", code, ext_text, set(), quarantined=set(quarantined))
     except splice.SpliceError as e:
         raise Undecided("splice: %s" % e)
     if srep["errors"]:
         raise Undecided("splice: " + "; ".join(srep["errors"]))
     gen = pre + gen_code + post
-    if quarantined:
-        gen = quarantine(gen, set(quarantined))
     d = os.path.join(BUILD, tag)
     os.makedirs(d, exist_ok=True)
     gp = os.path.join(d, "indextree_vx.rs")
@@ -287,6 +285,7 @@ def obligations_from(result, gi):
             entry.update({"function": "?", "obligation": "?:" + msg, "props": []})
         else:
             label, lprops = (None, [])
+            weak_props = None
             if "postcondition" in msg or "invariant" in msg:
                 label, lprops = gi.label_at(line, f)
                 ob = "%s: %s" % (f["name"], label or ("clause@" + gi.lines[line - 1].strip()[:60]))
@@ -303,7 +302,7 @@ def obligations_from(result, gi):
                             if cprops:
                                 lprops = cprops       # the clause says which properties it protects
                             elif cf["mode"] == "proof" and cf["props"]:
-                                lprops = [p for p in cf["props"]]   # a proof step: the properties the lemma serves
+                                weak_props = [p for p in cf["props"]]   # a proof step: the properties the lemma serves (not specific)
                             if not clabel:
                                 clabel = gi.lines[s["line_start"] - 1].strip()[:60]
                         else:
@@ -311,7 +310,7 @@ def obligations_from(result, gi):
                 ob = "%s: call %s requires %s" % (f["name"], callee, clabel)
             else:
                 ob = "%s: %s @%s" % (f["name"], msg, gi.lines[line - 1].strip()[:60])
-            entry.update({"function": f["name"], "obligation": ob, "props": lprops or f["props"], "specific": bool(lprops)})
+            entry.update({"function": f["name"], "obligation": ob, "props": lprops or weak_props or f["props"], "specific": bool(lprops)})
         (res if c == "resource" else fails).append(entry)
     return fails, tools, res
 
